@@ -51,6 +51,10 @@ pub enum Op {
     ReadAll,
     DropHeap,
     NewHeap,
+    /// guard bookkeeping on a guard whose heap is gone, with a handle of that same heap:
+    /// kind 0 `guard` (a no-op without the heap), 1 `unguard` (pure bookkeeping), 2 `clear`,
+    /// 3 `len`/`is_empty`. All four are legal and must not touch the freed arena.
+    Orphan(u32, u32, u8),
 }
 
 #[derive(Clone, Debug, Serialize, Deserialize)]
@@ -382,6 +386,7 @@ impl Check for C13 {
             if long { 0 } else { 3 },          // ReadAll
             if with_heap_drop { 2 } else { 0 }, // DropHeap
             if with_heap_drop { 3 } else { 0 }, // NewHeap
+            if with_heap_drop { 4 } else { 0 }, // Orphan
         ];
         if rng.chance(0.15) {
             // disable a random kind
@@ -414,7 +419,8 @@ impl Check for C13 {
                 14 => Op::SetThreshold(*rng.pick(&thresholds)),
                 15 => Op::ReadAll,
                 16 => Op::DropHeap,
-                _ => Op::NewHeap,
+                17 => Op::NewHeap,
+                _ => Op::Orphan(a, b, rng.below(4) as u8),
             };
             ops.push(op);
         }
@@ -765,6 +771,59 @@ impl Check for C13 {
                         s.heap = None;
                         let _ = write!(s.trace, "D;");
                     }
+                }
+                Op::Orphan(a, b, kind) => {
+                    // guards whose heap has been dropped (also while a newer heap exists)
+                    let gs: Vec<usize> = (0..s.guards.len())
+                        .filter(|&g| s.guards[g].as_ref().is_some_and(|(hg, _)| *hg != s.heap_gen || s.heap.is_none()))
+                        .collect();
+                    if gs.is_empty() {
+                        continue;
+                    }
+                    let g = gs[*a as usize % gs.len()];
+                    let ggen = s.guards[g].as_ref().map(|x| x.0).unwrap_or(0);
+                    let hs: Vec<usize> = (0..s.handles.len())
+                        // handles of that heap whose object was never reclaimed: a handle that was
+                        // stale before the drop may alias a reused slot, so its identity is ambiguous
+                        .filter(|&h| s.handles[h].is_some_and(|id| s.nodes[id].heap_gen == ggen && !s.nodes[id].reclaimed))
+                        .collect();
+                    match kind {
+                        0 | 1 if hs.is_empty() => continue,
+                        0 => {
+                            let h = hs[*b as usize % hs.len()];
+                            let gc = s.rhandles[h].as_ref().unwrap().clone();
+                            s.rguards[g].as_ref().unwrap().guard(gc);
+                        }
+                        1 => {
+                            let h = hs[*b as usize % hs.len()];
+                            let id = s.handles[h].unwrap();
+                            let found = s.rguards[g].as_ref().unwrap().unguard(s.rhandles[h].as_ref().unwrap());
+                            let roots = &mut s.guards[g].as_mut().unwrap().1;
+                            let mfound = if let Some(pos) = roots.iter().position(|r| *r == id) {
+                                roots.swap_remove(pos);
+                                true
+                            } else {
+                                false
+                            };
+                            if found != mfound {
+                                s.fail("unguard_result", format!("orphan guard: real {} model {}", found, mfound), json!({"at_op": at, "guard": g, "node": id}));
+                            }
+                        }
+                        2 => {
+                            s.rguards[g].as_ref().unwrap().clear();
+                            s.guards[g].as_mut().unwrap().1.clear();
+                        }
+                        _ => {
+                            let n = s.rguards[g].as_ref().unwrap().len();
+                            let m = s.guards[g].as_ref().unwrap().1.len();
+                            let e = s.rguards[g].as_ref().unwrap().is_empty();
+                            if n != m || e != (m == 0) {
+                                s.fail("guard_len", format!("orphan guard: real {} model {}", n, m), json!({"at_op": at, "guard": g}));
+                            }
+                        }
+                    }
+                    s.rep.bump("orphan_guard_ops", 1);
+                    let _ = write!(s.trace, "O{}k{};", g, kind);
                 }
                 Op::NewHeap => {
                     if s.heap.is_none() {
